@@ -14,11 +14,14 @@
    [C02_error_document_roundtrip]: every error object comes back member by
    member (the eight members; links, source and meta as the same maps) and an
    error document comes back without data, with the same errors and meta.
-   NOT PROVED (correspondence + oracle only): struct-backed resources and
-   identifier documents. *)
+   [C02_document_roundtrip_*_any]: the same composition for resources of
+   either implementation, given that each one round-trips by itself
+   ([roundtrips]: C01_soft_resource_roundtrip / C01_wrapped_resource_roundtrip
+   provide exactly that) -- collections may mix soft and struct-backed
+   members.  NOT PROVED (correspondence + oracle only): identifier documents. *)
 From JV Require Import Model.Base Model.GoTime Gen.TypeGo Model.Schema Model.Value
   Model.Json Model.Resource Model.Marshal Model.Unmarshal Model.Document
-  Model.SoftRes Proofs.C03Facts Proofs.C02Facts Proofs.C01Full Proofs.C02Full Proofs.C02Errors.
+  Model.SoftRes Proofs.C03Facts Proofs.C02Facts Proofs.C01Full Proofs.C02Full Proofs.C02Errors Proofs.C02Generic.
 
 Theorem C02_written_kind_partial : forall e d fields dj,
   marshal_data e d fields = Ok (Some dj) ->
@@ -93,6 +96,25 @@ Theorem C02_document_roundtrip_nil : forall e sc fields self d incl,
               unmarshal_document e sc j = Ok u /\ u_data u = UNil /\ rest_ok d incl u.
 Proof. exact doc_roundtrip_nil. Qed.
 Print Assumptions C02_document_roundtrip_nil.
+
+(* ---- either implementation: resources that round-trip one by one ---- *)
+Theorem C02_document_roundtrip_resource_any : forall e sc fields self d incl',
+  Forall2 (roundtrips e sc fields (d_reldata d) (d_prepath d)) (sort_included (d_included d)) incl' ->
+  d_errors d = [] -> forall r r',
+  d_data d = DRes r -> roundtrips e sc fields (d_reldata d) (d_prepath d) r r' ->
+  exists j u, marshal_document e d fields self = Ok j /\
+              unmarshal_document e sc j = Ok u /\ u_data u = URes r' /\ rest_ok_gen d incl' u.
+Proof. exact doc_roundtrip_resource_any. Qed.
+Print Assumptions C02_document_roundtrip_resource_any.
+
+Theorem C02_document_roundtrip_collection_any : forall e sc fields self d incl',
+  Forall2 (roundtrips e sc fields (d_reldata d) (d_prepath d)) (sort_included (d_included d)) incl' ->
+  d_errors d = [] -> forall ct l l',
+  d_data d = DCol ct l -> Forall2 (roundtrips e sc fields (d_reldata d) (d_prepath d)) l l' ->
+  exists j u, marshal_document e d fields self = Ok j /\
+              unmarshal_document e sc j = Ok u /\ u_data u = UCol l' /\ rest_ok_gen d incl' u.
+Proof. exact doc_roundtrip_collection_any. Qed.
+Print Assumptions C02_document_roundtrip_collection_any.
 
 (* ---- error objects and error documents ---- *)
 Theorem C02_error_object_roundtrip : forall er,
